@@ -34,7 +34,9 @@ func (c12) Rule() string {
 
 var cacheTexts = []string{`{ me { firstName lastName } }`, `{ allUsers { firstName nick } }`, `{ topPhoto { url likes } }`, `{ nope }`,
 	// two documents that differ in white space only, where it matters: a line break ends a comment
-	"{ me { firstName # and\n lastName } }", "{ me { firstName # and lastName\n } }"}
+	"{ me { firstName # and\n lastName } }", "{ me { firstName # and lastName\n } }",
+	// white space around a document (a heredoc, a trailing newline): the text sent is the text that is hashed
+	"\n\t{ me { firstName lastName } }\n", "{ topPhoto { url likes } } \n"}
 
 // NearTexts: documents that differ only in significant white space (the end of a comment, the inside of a string)
 var NearTexts = [][2]string{
